@@ -87,6 +87,9 @@ def main():
         open(tmp, "w").write(headpatch)
         rc, o = sh("git -C /repo apply %s" % tmp)
         results = {}
+        # evidence written while /repo is modified must not replace the evidence of the unchanged tree
+        shutil.rmtree("/tmp/ev/evidence-keep", ignore_errors=True)
+        shutil.copytree("/verif/evidence", "/tmp/ev/evidence-keep")
         try:
             if rc == 0:
                 for ck in checks:
@@ -99,6 +102,8 @@ def main():
         finally:
             sh("git -C /repo checkout -- .")
             sh("git -C /repo clean -fdq -- .")
+            shutil.rmtree("/verif/evidence", ignore_errors=True)
+            shutil.copytree("/tmp/ev/evidence-keep", "/verif/evidence")
         out["checks_run"] = results
         return finish(out, src, sid, headpatch)
     finally:
